@@ -32,4 +32,12 @@ Proof.
   split; [exact E|]. rewrite E, in_map_iff. intros (o & E' & _). discriminate.
 Qed.
 
+Theorem db_to_json_keys_final objs :
+  db_to_json_keys assign pk objs = map (fun o => Some (final_key assign pk o)) objs /\ ~ In None (db_to_json_keys assign pk objs).
+Proof.
+  assert (E : db_to_json_keys assign pk objs = map (fun o => Some (final_key assign pk o)) objs).
+  { unfold db_to_json_keys. replace db_to_json_flushes_session with true by reflexivity. apply map_ext. intros o. apply pk_after_whole. }
+  split; [exact E|]. rewrite E, in_map_iff. intros (o & E' & _). discriminate.
+Qed.
+
 End FlushProofs.
